@@ -3,6 +3,7 @@ package main
 // C15 Recovery contains every panic and leaves the application serving.
 
 import (
+	"fmt"
 	"go/constant"
 	"go/token"
 	"go/types"
@@ -242,6 +243,44 @@ func checkC15(c *Check) {
 			} else {
 				c.OK(dk+":panic-detail", p.FuncPos(D), "every response sink argument deriving from recover()/stack arrives through the Env() == development edge", nSinks)
 			}
+		}
+	}
+
+	// ---- R6 the recovering code itself is total
+	c.Rule("R6", "E8 prove-pass oracle", "every index/slice operation in Recovery's handler, its deferred literal and its helper closures is proven by the compiler or is x[i+1:] with i = Index/LastIndex(x, …) on the i >= 0 edge: a panic raised after recover() would escape ServeHTTP", 1)
+	{
+		fns := withLits(rec)
+		sites, err := p.IndexSites(fns)
+		if err != nil {
+			c.Bad(p.FuncKey(rec)+":prove-pass", "?", err.Error())
+		}
+		nun, bad := 0, 0
+		for _, st := range sites {
+			if !st.Unproven {
+				continue
+			}
+			nun++
+			ok := false
+			if sl, isSl := st.Instr.(*ssa.Slice); isSl && sl.High == nil && sl.Low != nil {
+				if b, isB := strip(sl.Low).(*ssa.BinOp); isB && b.Op == token.ADD && vConstInt(1)(b.Y) {
+					if cl := asCall(b.X); cl != nil {
+						n := callName(&cl.Call)
+						if (n == "bytes.LastIndex" || n == "bytes.Index" || n == "strings.Index" || n == "strings.LastIndex" || n == "bytes.IndexByte" || n == "strings.IndexByte") && strip(cl.Call.Args[0]) == strip(sl.X) {
+							g := union(edgesWhere(st.Fn, cCmp(token.GEQ, vIs(cl), vConstInt(0)), true), edgesWhere(st.Fn, cCmp(token.EQL, vIs(cl), vConstInt(-1)), false))
+							if okG, _ := guardedBy(st.Fn, g, isInstr(st.Instr)); okG && len(g) > 0 {
+								ok = true
+							}
+						}
+					}
+				}
+			}
+			if !ok {
+				bad++
+				c.Bad(p.FuncKey(st.Fn)+":index", p.Pos(st.Instr.Pos()), "an index/slice operation in the recovering code is not provably in bounds: a panic here happens after recover() and escapes ServeHTTP")
+			}
+		}
+		if bad == 0 {
+			c.OK(p.FuncKey(rec)+":total", p.FuncPos(rec), fmt.Sprintf("%d index sites in %d functions: all compiler-proven except %d of the form x[Index(x,…)+1:] on the found edge", len(sites), len(fns), nun), len(sites))
 		}
 	}
 
